@@ -374,7 +374,8 @@ def beta (l : Line) : IO Unit := do
 def tolQuad : Rat := mkRat 1 (10 ^ 9)
 def tolInv : Rat := mkRat 1 (10 ^ 8)
 
-/-- N12a — predicted cancellation error of `TDist.CDF` at x: the code forms ν/(ν+x²), the sum is
+/-- F22 (repaired by /repo 5ce8769; kept for the notes and for diagnosing a revert) — predicted
+cancellation error of the former `TDist.CDF` at x: the code formed ν/(ν+x²), the sum is
 rounded to 2^-53 relative, i.e. x² is known only to ν·2^-53; propagated through dF/d(x²) = pdf/(2x)
 this is ≤ ν·2^-52/|x|, and never more than |x| (the CDF collapses to ½). -/
 def cancelErr (nu x : Rat) : Rat :=
@@ -395,9 +396,13 @@ def grid (l : Line) (sigma : Rat) (nu : Option Rat) : IO Unit := do
   -- K: the float64 instance of TDist.CDF / NormalDist.CDF with the transcendental parameter given
   -- as the table the harness measured (argument → value)
   let tbl := table ((bitsList (l.getD "A")).zip (bitsList (l.getD "B")))
+  let tbl3 : List (F64.Bits × F64.Bits × F64.Bits) :=
+    (bitsList (l.getD "A")).zip ((bitsList (l.getD "A2")).zip (bitsList (l.getD "B")))
+  let I3 (x a _b : Fl) : Fl := match tbl3.find? (fun e => e.1 == x.bits && e.2.1 == a.bits) with
+    | some e => ⟨e.2.2⟩ | none => Fl.nan
   let Fm : List String := xsB.map fun x =>
     match nu with
-    | some _ => showOpt (Dists.tcdf (fun a _ _ => tbl a) ⟨bitsD (l.getD "nu")⟩ ⟨x⟩)
+    | some _ => showOpt (Dists.tcdf I3 ⟨bitsD (l.getD "nu")⟩ ⟨x⟩)
     | none => showFl (Dists.ncdf tbl ⟨0x3FF6A09E667F3BCD⟩ ⟨bitsD (l.getD "mu")⟩ ⟨bitsD (l.getD "sigma")⟩ ⟨x⟩)
   IO.println s!"obs {id} F={showList Fm}"
   let fin := FB.all F64.isFinite
@@ -426,7 +431,7 @@ def grid (l : Line) (sigma : Rat) (nu : Option Rat) : IO Unit := do
     for ((x, f), q) in (xs.zip F).zip QB do
       let dev := if F64.isFinite q then rabs (f - toRat q) else 1
       if dev > tolQuad then
-        let pe := match nu with | some n => cancelErr n x | none => 0
+        let pe : Rat := 0   -- F22 repaired (5ce8769): no allowance for the former cancellation error
         if dev ≤ tolQuad + pe then
           kf := true
           if res == "ok" then res := s!"bad(x~{showRat x},F-Q~{showRat (f - toRat q)})"
@@ -445,17 +450,15 @@ def grid (l : Line) (sigma : Rat) (nu : Option Rat) : IO Unit := do
           if dev > tol then
             -- N12a: the CDF is wrong by ≤ cancelErr around x, so its inverse is off by that / pdf;
             -- at the centre the flat zone has half-width √(ν·2^-53)
-            let pe := match nu with
-              | some n => 4 * (cancelErr n x / toRat p + sqrtRat (n * pow2 (-52)))
-              | none => 0
+            let pe : Rat := 0
             if dev ≤ tol + pe then
               kf := true
               if res == "ok" then res := s!"bad(x~{showRat x},inv={showB v})"
             else
               return (s!"bad(x~{showRat x},inv={showB v})", false)
     return (res, kf)
-  let tagN12a := if kfq ∨ kfi then " kf=N12a" else ""
-  IO.println s!"spec {id} range={rng} mono={mono (xsB.zip F)} sym={sym} quad={quad} inv={inv}{tagN12a}"
+  let _ := (kfq, kfi)
+  IO.println s!"spec {id} range={rng} mono={mono (xsB.zip F)} sym={sym} quad={quad} inv={inv}"
 
 /-! ### generic InvCDF on arithmetic-only distributions -/
 
